@@ -124,7 +124,14 @@ func VerifC17Profile() {
 			"profile: x\nviolation: [v]\nvalidations:\n  v:\n    targetClass: apiContract.X\n    and: &conj\n      - and: *conj\n",
 			"profile: x\nviolation: [v]\nvalidations:\n  v: &self\n    targetClass: apiContract.X\n    propertyConstraints:\n      core.name:\n        nested: *self\n",
 			"profile: x\nviolation: [v, w]\nvalidations:\n  v: &one\n    targetClass: apiContract.X\n    propertyConstraints:\n      core.name:\n        minCount: 1\n  w: *one\n",
-			"profile: &n x\nviolation: [*n]\nvalidations:\n  *n :\n    targetClass: apiContract.X\n    propertyConstraints: &pc\n      core.name: {minCount: 1}\n    or:\n      - propertyConstraints: *pc\n"}
+			"profile: &n x\nviolation: [*n]\nvalidations:\n  *n :\n    targetClass: apiContract.X\n    propertyConstraints: &pc\n      core.name: {minCount: 1}\n    or:\n      - propertyConstraints: *pc\n",
+			// long texts, ASCII and not, in places whose content is quoted by error and panic messages (a class
+			// that is not in compact form, an unknown prefix, a path that does not parse, a pattern that does not compile)
+			"profile: x\nviolation: [v]\nvalidations:\n  v:\n    targetClass: \"http://example.org/ns#" + strings.Repeat("日", 100) + "\"\n    propertyConstraints:\n      core.name: {minCount: 1}\n",
+			"profile: x\nviolation: [v]\nvalidations:\n  v:\n    targetClass: " + strings.Repeat("é", 90) + "." + strings.Repeat("x", 300) + "\n    propertyConstraints:\n      core.name: {minCount: 1}\n",
+			"profile: x\nviolation: [v]\nvalidations:\n  v:\n    targetClass: apiContract.X\n    propertyConstraints:\n      \"core.name / (" + strings.Repeat("ж", 200) + "\": {minCount: 1}\n",
+			"profile: x\nviolation: [v]\nvalidations:\n  v:\n    targetClass: apiContract.X\n    propertyConstraints:\n      " + strings.Repeat("q", 400) + ".name: {minCount: 1}\n",
+			"profile: " + strings.Repeat("名", 120) + "\nviolation: [" + strings.Repeat("v", 300) + "]\nvalidations:\n  " + strings.Repeat("v", 300) + ":\n    message: " + strings.Repeat("ü", 200) + "\n    targetClass: apiContract.X\n    propertyConstraints:\n      core.name: {pattern: \"(" + strings.Repeat("я", 150) + "\"}\n"}
 		text = docs[v.Choice("doc", len(docs))]
 	} else {
 		text = verifMutate(v.Choice("line", nLines), v.Choice("op", len(verifReplacements)+1))
